@@ -1,4 +1,4 @@
-import AranyaV.Proofs.DiskFault
+import AranyaV.Proofs.DiskIO6
 /-!
 # C15 — File-backed graph storage survives crashes
 
@@ -322,6 +322,74 @@ theorem failed_call_keeps_invariant_partial (hL : L.OK) {w : Writer} {d : Disk} 
     ∃ D' recs', WInv L ck (w.stepF L ck c f).1 (d.execAll (w.stepF L ck c f).2.1)
       (doneAfterF L ck w c f done) D' recs' ∧ (∀ r ∈ recs, r ∈ recs') :=
   stepF_inv_partial hL h c f he hbd
+
+/-- the ghost state right after `create` -/
+def G.init (L : Layout) : G :=
+  { done := none, next := L.rootA, gen := 0, D := L.freeStart, free := L.freeStart, recs := [],
+    atts := [], pa := none }
+
+theorem create_gq (hL : L.OK) : GQ L ck Disk.empty (G.init L) ∧ Link (Writer.create L).1 (G.init L) := by
+  have hz : ∀ s, loadValid ck Disk.empty.durable s = none := by
+    intro s; unfold loadValid; rw [loadRoot_zero (fun _ _ => rfl)]
+  have hl : ∀ s, lenOK Disk.empty.durable s := by
+    intro s; unfold lenOK lenAt Disk.empty rootMax; simp
+  refine ⟨⟨Or.inl rfl, hl _, hl _, hz _, ?_, ?_, ?_, ?_, ?_, ?_, Nat.le_refl _, Nat.le_refl _, ?_⟩, ⟨rfl, rfl, rfl⟩⟩
+  · intro r' h; rw [hz] at h; cases h
+  · intro a h; rcases h with h | h <;> cases h
+  · intro r h; cases h
+  · intro a h; cases h
+  · intro p h; cases h
+  · intro a h; cases h
+  · intro rec h; cases h
+
+/-- **recover_cases_io.**  Run from `create` in which ANY I/O call of any storage call may fail
+(adversary-chosen `Fault` per call: failing `fallocate`, `fsync`, data or root `pwrite` with any
+number of bytes still written, data barrier, final barrier), crash after any number `n` of I/O
+calls, any fault choice `χ`:
+
+* `open` fails only if no commit has returned `Ok` so far;
+* otherwise it returns the root of the last commit that returned `Ok`, or a root that some commit
+  of the run attempted to write (a commit in progress, or one that reported an error after its
+  root write was issued) whose generation is larger than that of the last `Ok` commit.
+
+So a failed operation never corrupts the durable state and a commit that reported success is
+never lost or rolled back.  Hypotheses (`HypsIO`): per commit, the attempted root fits the
+machine types (`bounded_of_limits` reduces this to four physical bounds) and `TornOKp` — the
+checksum hypothesis in its pointwise form — against the medium after that commit's data barrier. -/
+theorem recover_cases_io (hL : L.OK) (cs : List (Call × Fault))
+    (hh : HypsIO L ck (Writer.create L).1 Disk.empty cs) (n : Nat) (χ : List (List Bool)) :
+    (Writer.open L ck ((Disk.empty.execAll ((traceF L ck (Writer.create L).1 cs).take n)).crash χ) = none →
+      doneFromF L ck (Writer.create L).1 none cs n = none) ∧
+    ∀ w, Writer.open L ck ((Disk.empty.execAll ((traceF L ck (Writer.create L).1 cs).take n)).crash χ) = some w →
+      some w.root = doneFromF L ck (Writer.create L).1 none cs n ∨
+      (w.root ∈ attemptsF L ck (Writer.create L).1 cs ∧
+        ∀ r, doneFromF L ck (Writer.create L).1 none cs n = some r → r.gen < w.root.gen) := by
+  obtain ⟨q, hl⟩ := create_gq (ck := ck) hL
+  have := run_io hL cs _ _ _ [] q hl (fun r h => by rcases h with h | h <;> cases h) hh n χ
+  simpa [G.init] using this
+
+/-- the pointwise checksum hypothesis implies the mask form used by the fault-free theorems -/
+theorem tornOKp_implies_tornOK {old : Img} {s : Nat} {a : Root} (h : TornOKp ck old s a) :
+    TornOK ck old s a := h.mask
+
+/-- **bounded_from_limits.**  `Bounded` is not an independent hypothesis: it follows from the
+checksum being a `u64`, the fact-cache offsets being `u64`s, fewer than `2^64` commits and a file
+smaller than `2^63` bytes. -/
+theorem bounded_from_limits (hck : CkRange ck) (calls : List Call)
+    (hg : nCommits calls < 2 ^ 64) (hb : L.freeStart + totalBytes calls < 2 ^ 63)
+    (hf : FactsU64 calls) : Bounded L ck (Writer.create L).1 calls :=
+  bounded_of_limits hck calls _ (by simp [Writer.create, Root.new])
+    (by simpa [Writer.create, Root.new] using hg) (by simpa [Writer.create, Root.new] using hb) hf
+
+/-- `recover_cases` with `Bounded` replaced by the four physical bounds -/
+theorem recover_cases_limits (hL : L.OK) (calls : List Call)
+    (hck : ChecksumOK L ck (Writer.create L).1 Disk.empty calls) (hr : CkRange ck)
+    (hg : nCommits calls < 2 ^ 64) (hb : L.freeStart + totalBytes calls < 2 ^ 63)
+    (hf : FactsU64 calls) (n : Nat) (χ : List (List Bool)) :
+    match Writer.open L ck (crashImage L ck calls n χ) with
+    | none => doneAt L ck calls n = none
+    | some w => some w.root = doneAt L ck calls n ∨ some w.root = progAt L ck calls n :=
+  recover_cases hL calls ⟨hck, bounded_from_limits hr calls hg hb hf⟩ n χ
 
 /-! ## short files: a read beyond EOF is an invalid root, never a panic
 
